@@ -416,7 +416,15 @@ def shards(tier):
         nreq = sum(len(fmt_node(n)) for _, body in prog for n in body)
         return -(len(prog) ** (bound + 1)) * nreq
     sh.sort(key=cost)
-    return [("conformance",)] + sh
+    # listed known findings are re-executed from their recorded schedule on every run
+    from vlib import core
+
+    wit = []
+    for pat, e in sorted(core.load_known(PROPERTY).items()):
+        w = e.get("witness") or {}
+        if "program" in w and "choices" in w:
+            wit.append(("witness", pat, w["program"], w["choices"], w.get("opts") or {}))
+    return [("conformance",)] + wit + sh
 
 
 def run_shard(shard, tier):
@@ -426,6 +434,17 @@ def run_shard(shard, tier):
         from vlib import kconf
 
         return kconf.run(tier)
+    if shard[0] == "witness":
+        _, pat, prog, choices, opts = shard
+        prog = [(pid, [_tup(n) for n in body]) for pid, body in prog]
+        r = run_program(prog, choices, opts)
+        res = {"states": len(r["sched"].points) + 1, "transitions": r["sched"].steps, "evaluations": 1, "executions": 1,
+               "violations": [], "samples": [], "outcomes": {f"known-witness:{r['label']}": 1}}
+        if r["failures"]:
+            res["violations"].append({"program": prog, "program_text": fmt_prog(prog), "choices": r["sched"].choices, "opts": opts,
+                                      "family": "known-witness", "what": f"[{fmt_prog(prog)}] " + r["failures"][0],
+                                      "all": r["failures"][:5], "class": classify_text(r["failures"][0])})
+        return res
     _, idx, name, prog, bound, opts = shard
     res = {"states": 0, "transitions": 0, "evaluations": 0, "distinct_nontrivial": 0, "violations": [],
            "samples": [], "outcomes": {}, "programs": 1, "executions": 0, "preemption_bound_by_family": {name: str(bound)},
@@ -541,6 +560,20 @@ def replay(w):
 
 
 def classify(w):
+    if w.get("class") == "EDEADLK-spurious" and all("EDEADLK-spurious" in a for a in w.get("all", [w["what"]])):
+        prog = w["program"]
+        pids = [pid for pid, _ in prog]
+        paths = set()
+
+        def walk(n):
+            paths.add(n[0])
+            for k in n[4]:
+                walk(k)
+        for _, body in prog:
+            for n in body:
+                walk(n)
+        if len(set(pids)) >= 2 and all(pids.count(p) >= 2 for p in set(pids)) and len(paths) >= 2:
+            return "kernel_edeadlk_false_positive_2proc_2threads_2paths"
     return None
 
 
